@@ -18,6 +18,7 @@ def extra(chk, info, res):
 
 def run(chk):
     ac.run_actor_property(chk, MODULE, THEOREMS, monitor_pids=["C04"], extra=extra)
+    ac.responsiveness(chk, ['Tank', 'Filtration'])
     from checks import altcfg as _alt
     _alt.binding(chk, ['tank'])
     ac.timing_theorems(chk, TIMING)
